@@ -9,6 +9,7 @@ package main
 //   D<k>                             run goroutine k's queue to completion (releases it if parked)
 //   U<k>                             start goroutine k and let it run to the yield point before done.Set (or to completion)
 //   B<k>                             start goroutine k in the background (it may block on a chunk mutex)
+//   G<k>                             start goroutine k and hold it inside its next GetChunk (gated store); D<k> lets the call return
 //   DA                               wait until the preload workers are finished
 //   X:<state 0|1|2>:<K|A|R<n>>:<preload 0|1>   restart: state file readable (1), hidden (0) or replaced by a foreign one of
 //                                              the wrong length (2); cache kept/absent/resized; preload
@@ -86,6 +87,7 @@ type c10Run struct {
 	cls, what   string
 	hung        bool
 	bootHold    func(bool)
+	gated       int // 1+goroutine held inside GetChunk by the store's gate
 	preloadWant int // store calls expected once the preload workers are finished
 	abandoned   map[int]bool
 }
@@ -211,7 +213,7 @@ func (x *c10Run) exec(tok, k int, q c10Req) (ok bool) {
 	for j := range buf {
 		buf[j] = 0xAA
 	}
-	_, f0 := x.st.counters()
+	_, f0, e0 := x.st.counters3()
 	n, err := x.readAt(k, buf, q.off)
 	_, f1 := x.st.counters()
 	ec := c09ErrClass(err)
@@ -230,7 +232,10 @@ func (x *c10Run) exec(tok, k int, q c10Req) (ok bool) {
 	if q.off >= 0 && q.off <= L {
 		want = min64(int64(q.ln), L-q.off)
 	}
+	_, _, e1 := x.st.counters3()
 	switch {
+	case err == io.EOF && e1 > e0 && (q.off < 0 || int64(n) != want || n >= q.ln):
+		x.fail(tok, "sparse/store-eof-taken-for-end-of-file", fmt.Sprintf("ReadAt(len=%d, off=%d) returned (%d, io.EOF) because the store failed with io.EOF: the caller sees the end of the file, the blob has %d more bytes there", q.ln, q.off, n, want))
 	case err != nil && err != io.EOF:
 		if q.off >= 0 && f1 == f0 {
 			x.fail(tok, "sparse/error-with-healthy-store", fmt.Sprintf("ReadAt(len=%d, off=%d) returned %v although the store did not fail", q.ln, q.off, err))
@@ -524,6 +529,22 @@ func c10Run1(a vh.Args, c *c10Case) (obs string, x *c10Run, err error) {
 				hookMu.Lock()
 				armed = false
 				hookMu.Unlock()
+			case 'G': // run until it is inside its next GetChunk and hold it there (gated store)
+				x.st.mu.Lock()
+				x.st.gateArmed, x.st.gateHit, x.st.gateCh = true, make(chan struct{}), make(chan struct{})
+				hit := x.st.gateHit
+				x.st.mu.Unlock()
+				ch := make(chan struct{})
+				x.running[k] = ch
+				go func(ti, k int) { defer close(ch); x.runQueue(ti, k) }(ti, k)
+				select {
+				case <-hit:
+					x.gated = k + 1
+				case <-ch: // finished without asking the store
+					x.st.mu.Lock()
+					x.st.gateArmed = false
+					x.st.mu.Unlock()
+				}
 			case 'B': // background; give it time to reach a chunk mutex
 				ch := make(chan struct{})
 				x.running[k] = ch
@@ -531,6 +552,10 @@ func c10Run1(a vh.Args, c *c10Case) (obs string, x *c10Run, err error) {
 				time.Sleep(3 * time.Millisecond)
 			case 'D':
 				if ch, ok := x.running[k]; ok {
+					if x.gated == k+1 {
+						close(x.st.gateCh)
+						x.gated = 0
+					}
 					hookMu.Lock()
 					if x.parked != nil {
 						close(x.parked)
@@ -542,6 +567,10 @@ func c10Run1(a vh.Args, c *c10Case) (obs string, x *c10Run, err error) {
 				}
 				x.runQueue(ti, k)
 			}
+		}
+		if x.gated != 0 {
+			close(x.st.gateCh)
+			x.gated = 0
 		}
 		hookMu.Lock()
 		if x.parked != nil {
@@ -625,6 +654,8 @@ func c10Check(a vh.Args, o *vh.Oracle, r *vh.Result, c *c10Case) error {
 			r.Dist("op:park-at-yield")
 		case t[0] == 'B':
 			r.Dist("op:background-reader")
+		case t[0] == 'G':
+			r.Dist("op:held-in-getchunk")
 		}
 	}
 	r.Sample(map[string]interface{}{"kind": c.Kind, "shape": c.Shape, "chunks": len(c.Sizes), "script": c09Tail(strings.Join(c.Script, ","), 120), "impl_tail": c09Tail(obs, 80)})
@@ -658,7 +689,7 @@ func c10Check(a vh.Args, o *vh.Oracle, r *vh.Result, c *c10Case) error {
 	return nil
 }
 
-var c10EIO = regexp.MustCompile(`=E:[a-z0-9]+`)
+var c10EIO = regexp.MustCompile(`=E:[a-z0-9-]+`)
 
 func c10Diff(m, g string) string {
 	ms, gs := strings.Split(m, ";"), strings.Split(g, ";")
@@ -848,6 +879,22 @@ func c10GenReread(rng *vh.Rand, c *c10Case) {
 	c.Script = append(c.Script, tok, "D0")
 }
 
+// two readers of the same unloaded chunk: the first is held inside GetChunk (gated store) while the second arrives and
+// waits for the chunk's mutex; then the first one's fetch fails.  The waiter must load the chunk itself (or fail).
+func c10GenGate(rng *vh.Rand, c *c10Case) {
+	tok := c10ReadTok(rng, 0, c.Sizes, c.Max)
+	c.Faults = []c09Fault{{K: 0, Code: []int{2, 2, 5, 1, 3}[rng.Intn(5)]}}
+	tokB := strings.Replace(tok, "Q0", "Q1", 1)
+	if rng.Chance(1, 3) {
+		tokB = c10ReadTok(rng, 1, c.Sizes, c.Max)
+	}
+	c.Script = append(c.Script, tok, "G0", tokB, "B1", "D0", "D1")
+	if rng.Bool() {
+		c.Script = append(c.Script, "Q2:S", "D2", "X:1:K:0", "DA")
+	}
+	c.Script = append(c.Script, strings.Replace(tok, "Q0", "Q3", 1), "D3")
+}
+
 func runC10(a vh.Args, o *vh.Oracle, r *vh.Result) error {
 	desync.Log.SetOutput(io.Discard) // the mount node logs every failed read
 	r.Rule = "case = (blob built from explicit chunks incl. runs of null chunks, short zero chunks, repeated chunks, single chunk, empty blob; in-memory store failing at chosen call numbers or lacking a chunk; a script of ReadAt on goroutines 0-3 (offsets at chunk boundaries +-1, past the end, zero-length), WriteState, restarts with {state readable or not} x {cache kept, absent, resized} x {preload}, readers parked at the sparse.written yield point with a concurrent WriteState / reader / kill); non-trivial = more than two tokens; distinct by (blob, faults, script)"
@@ -875,8 +922,11 @@ func runC10(a vh.Args, o *vh.Oracle, r *vh.Result) error {
 		cc := &c09Case{Sizes: c.Sizes}
 		c09GenFaults(rng, cc, expect)
 		c.Faults, c.Missing = cc.Faults, cc.Missing
-		for i := range c.Faults { // some failures happen after the fetch: the object cannot be decoded
-			if rng.Chance(1, 3) {
+		for i := range c.Faults {
+			if c.Faults[i].Code == 4 && !rng.Chance(1, 4) { // the store's error is mostly a wrapped io.EOF, rarely io.EOF itself
+				c.Faults[i].Code = 5
+			}
+			if c.Faults[i].Code != 4 && rng.Chance(1, 3) { // some failures happen after the fetch: the object cannot be decoded
 				c.Faults[i].Code = 3
 			}
 		}
@@ -888,6 +938,20 @@ func runC10(a vh.Args, o *vh.Oracle, r *vh.Result) error {
 		}
 		c10GenSeq(rng, c, 1+rng.Intn([]int{4, 12, 40}[rng.Intn(3)]))
 		faults(c, len(c.Script)/3)
+		if err := c10Check(a, o, r, c); err != nil {
+			if err == errC09Hang {
+				r.Note("run aborted after a hang")
+				return nil
+			}
+			return err
+		}
+	}
+	for i := 0; i < nConc/2; i++ {
+		c := mk("gate")
+		if len(c.Sizes) == 0 {
+			continue
+		}
+		c10GenGate(rng, c)
 		if err := c10Check(a, o, r, c); err != nil {
 			if err == errC09Hang {
 				r.Note("run aborted after a hang")
